@@ -1585,6 +1585,32 @@ impl<E: Effect> Environment<E> {
         &self.program
     }
 
+    /// Verification hook: current resource ownership table (resource id -> owner pid), sorted.
+    #[cfg(feature = "verif")]
+    pub fn verif_resource_ownership(&self) -> Vec<(ResourceId, ProcessId)> {
+        let mut v: Vec<_> = self
+            .resource_ownership
+            .iter()
+            .map(|(r, p)| (*r, *p))
+            .collect();
+        v.sort();
+        v
+    }
+
+    /// Verification hook: which worker a process lives on.
+    #[cfg(feature = "verif")]
+    pub fn verif_worker_of(&self, pid: ProcessId) -> Option<WorkerId> {
+        self.process_router.get(&pid).copied()
+    }
+
+    /// Verification hook: awaiters whose initial query is still being collected.
+    #[cfg(feature = "verif")]
+    pub fn verif_pending_awaits(&self) -> Vec<ProcessId> {
+        let mut v: Vec<_> = self.pending_awaits.keys().copied().collect();
+        v.sort();
+        v
+    }
+
     /// Deep-copy a type whose child ids reference this environment's program into `target`,
     /// returning an equivalent type with every id remapped into `target`'s id space.
     ///
